@@ -344,7 +344,7 @@ func c02Corpus(c *runner.Ctx, idx uint64) {
 // a result; it can only move the failure of that call to compile time.
 func c02ConstExpr(c *runner.Ctx, idx uint64) {
 	r := c.R
-	fns := []string{"FnI", "FnII", "FnS", "FnF", "FnB", "Div", "FnAny", "FnVar", "Inc", "Cat", "FnU8", "FnInts", "MkItem", "Fast"}
+	fns := []string{"FnI", "FnII", "FnS", "FnF", "FnB", "Div", "FnAny", "FnVar", "Inc", "Cat", "FnU8", "FnInts", "MkItem", "Fast", "EqAny"}
 	fn := r.Pick(fns)
 	arg := func(kind string) string {
 		switch kind {
@@ -389,6 +389,8 @@ func c02ConstExpr(c *runner.Ctx, idx uint64) {
 		call = fmt.Sprintf("FnVar(%s, %s)", arg("int"), arg("int"))
 	case "Fast":
 		call = fmt.Sprintf("Fast(%s, %s)", arg("any"), arg("int"))
+	case "EqAny":
+		call = fmt.Sprintf("EqAny(%s, %s)", arg("any"), arg("any"))
 	}
 	forms := []string{"%s", "%s == %s", "[%s, %s]", "P ? %s : %s", "FnAny(%s) == FnAny(%s)", "{\"a\": %s, \"b\": %s}", "A > 100 and %s == %s"}
 	f := forms[r.Intn(len(forms))]
